@@ -97,12 +97,16 @@ func (g *pGraph) rewrite(m *openfgav1.AuthorizationModel, td *openfgav1.TypeDefi
 	case u.GetTupleToUserset() != nil:
 		ts := u.GetTupleToUserset().GetTupleset().GetRelation()
 		c := u.GetTupleToUserset().GetComputedUserset().GetRelation()
+		// one line per parent type and occurrence of the tuple-to-userset (a parent type listed twice in the tupleset
+		// is folded; the same operand written twice under one operator is drawn twice, like a repeated computed operand)
+		seen := map[string]bool{}
 		for _, r := range td.GetMetadata().GetRelations()[ts].GetDirectlyRelatedUserTypes() {
 			if !pHasRelation(m, r.GetType(), c) {
 				continue
 			}
 			src := g.node(r.GetType()+"#"+c, SpecificTypeAndRelation)
-			if !g.hasLine(parent, src, TTUEdge, td.GetType()+"#"+ts) {
+			if !seen[r.GetType()] {
+				seen[r.GetType()] = true
 				parent.in = append(parent.in, &pLine{from: src, kind: TTUEdge, tupleset: td.GetType() + "#" + ts})
 			}
 		}
